@@ -916,6 +916,77 @@ theorem C15_resave_idem (v : Vtf) (minor sheetVer : Nat) (asw : Bool) (file file
               exact ⟨_, rfl⟩), RA] at h2
           exact (Except.ok.inj h2).symm
 
+/-- **`save (read (save v)) = save v`, unconditionally for power-of-two textures.** With the sizes
+`VTF.__init__` accepts (`2^a × 2^b`), at least one declared level and, when there is a thumbnail, a
+non-empty one and at least one frame (`resaveWF`), saving the lazily re-read object cannot fail and
+writes exactly the bytes of the first save. -/
+theorem C15_resave_idem_pow2 (v : Vtf) (minor sheetVer : Nat) (asw : Bool) (file : List Nat) (a b : Nat)
+    (h : saveFile v minor sheetVer asw = .ok file) (hwf : saveWF v minor sheetVer = true)
+    (hfm : formatsLawful v = true)
+    (hpx : ∀ v', applyCompute v 4 = .ok v' → pixelsWF v' minor = true)
+    (hr : resaveWF v a b) :
+    saveFile (objOfRead file (viewOf v minor sheetVer (lowLen v))) minor sheetVer asw = .ok file := by
+  have hv' : ∃ v', applyCompute v 4 = .ok v' ∧ assemble v' minor sheetVer asw = .ok file := by
+    unfold saveFile at h
+    split at h
+    · simp at h
+    · split at h
+      · simp at h
+      · split at h
+        · simp at h
+        · cases hc : applyCompute v 4 with
+          | error e => simp [hc] at h
+          | ok v' => exact ⟨v', rfl, by simpa [hc] using h⟩
+  obtain ⟨v', hc, ha⟩ := hv'
+  obtain ⟨hwf', hview⟩ := saveWF_applyCompute v v' 4 minor sheetVer hc hwf
+  obtain ⟨frames', low', rfl, _, _, hw, hh, _⟩ := applyCompute_shape v v' 4 hc
+  have hfm' : formatsLawful { v with frames := frames', low := low' } = true := hfm
+  have hpx' := hpx _ hc
+  have hr' : resaveWF { v with frames := frames', low := low' } a b := by
+    obtain ⟨r1, r2, r3, r4⟩ := hr
+    exact ⟨r1, r2, r3, fun hn => by simpa [hw, hh] using r4 hn⟩
+  rw [← hview]
+  have RA := C15_resave_assemble _ minor sheetVer asw file ha hwf' hpx' hfm'
+  have RO := C15_read_object _ minor sheetVer asw file ha hwf' hpx' hfm'
+  have hd := saveWF_depth _ minor sheetVer hwf'
+  have hwf2 := hwf'
+  simp only [saveWF, fileWF, hdrWF, resPartWF, Bool.and_eq_true, decide_eq_true_eq] at hwf2
+  have hminor : minor ≤ 5 := hwf2.1.1.1.1.1.1.1.1.1.1.1.1.1.1.1.1.1.1
+  have hsv : sheetVer ≤ 1 := hwf2.1.1.1.2.1.1.2
+  have hdep1 : 1 ≤ v.depth := hwf2.1.2
+  have hdep2 : minor < 2 → v.depth = 1 := hwf2.2
+  obtain ⟨o', hc2⟩ := applyCompute_objOfRead_ok _ minor sheetVer
+    (lowLen { v with frames := frames', low := low' }) a b file hd hdep1 hr'
+  unfold saveFile
+  have g1 : ¬ minor > 5 := by omega
+  have g2 : ¬ (minor < 2 ∧ (objOfRead file (viewOf { v with frames := frames', low := low' } minor sheetVer
+      (lowLen { v with frames := frames', low := low' }))).depth > 1) := by
+    have : (objOfRead file (viewOf { v with frames := frames', low := low' } minor sheetVer
+        (lowLen { v with frames := frames', low := low' }))).depth = v.depth := by
+      simpa [objOfRead, viewOf] using hd
+    rw [this]
+    intro hc'
+    have := hdep2 hc'.1
+    omega
+  have g3 : ¬ (minor ≥ 3 ∧ hasSheetRes (objOfRead file (viewOf { v with frames := frames', low := low' } minor
+      sheetVer (lowLen { v with frames := frames', low := low' }))) = true ∧ sheetVer > 1) := by
+    intro hc'; omega
+  rw [if_neg g1, if_neg g2, if_neg g3]
+  simp only [hc2]
+  rw [assemble_applyCompute_lazy _ o' 4 minor sheetVer asw hc2
+    (by
+      intro hn
+      have := RO.1 (by simpa [objOfRead, viewOf] using hn)
+      exact ⟨_, by rw [this]⟩)
+    (by
+      intro k hk fr hfk
+      have hk' : k ∈ fileKeys v.mipCount v.frameCount (depthSeq v.flags minor v.depth) := by
+        simpa [objOfRead, viewOf, hd] using hk
+      obtain ⟨fr0, _, hfo⟩ := RO.2 k hk'
+      rw [hfo] at hfk
+      cases hfk
+      exact ⟨_, rfl⟩), RA]
+
 /-! ## Non-vacuity: the hypotheses are satisfiable, and the laws visibly bite -/
 
 example : (⟨200, 100, 50, 129⟩ : Px).valid := by decide
@@ -938,6 +1009,14 @@ example : (fileKeys 3 2 (depthSeq envmapFlag 4 1)).length = 42 ∧
 example : saveWF exampleVtf 4 1 = true := by decide +kernel
 example : (match saveFile exampleVtf 4 1 true with
     | .ok file => file.length == 1281 && (readFile file == .ok (viewOf exampleVtf 4 1 (lowLen exampleVtf)))
+    | .error _ => false) = true := by decide +kernel
+example : resaveWF exampleVtf 2 1 ∧ formatsLawful exampleVtf = true := by
+  unfold resaveWF; decide
+example : (match applyCompute exampleVtf 4 with | .ok v' => pixelsWF v' 4 | .error _ => false) = true := by
+  decide +kernel
+-- ... and saving the object read back from it reproduces the file byte for byte
+example : (match saveFile exampleVtf 4 1 true with
+    | .ok file => saveFile (objOfRead file (viewOf exampleVtf 4 1 (lowLen exampleVtf))) 4 1 true == .ok file
     | .error _ => false) = true := by decide +kernel
 -- the decision procedure rejects a wrong claim (BGRA4444 does not keep 5 bits)
 example : sameList ((codecOf 19).load.map (E.subst (codecOf 19).save)) qE5551x = false := by decide +kernel
